@@ -87,6 +87,8 @@ def entry_points(L, n):
 
 def range_for(asz, rng):
     b, st = rng.randrange(0, 3), rng.randrange(1, 4)
+    if rng.random() < 0.25:      # now and then a far begin and a long step
+        b, st = rng.randrange(0, 12), rng.choice([1, 2, 3, 4, 5, 7, 8, 9, 16, 17])
     e = b if asz == 0 else b + (asz - 1) * st + 1 + rng.randrange(0, st)
     return (b, e, st, e + rng.randrange(0, 2))
 
